@@ -222,7 +222,11 @@ class Sites:
         if k == "union":
             for x in t[1]:
                 if self.top_conforms(x, v):
-                    self.walk(x, v, path)
+                    keep = len(self.out)
+                    try:        # top_conforms is shallow: a member the value does not really belong to may not be walkable
+                        self.walk(x, v, path)
+                    except Exception:
+                        del self.out[keep:]
             # pack_union is speculative: an earlier member's packer that does not raise wins even
             # if the value belongs to a later member (a serializer matter, C02/C11)
             if self.doc is not None:
@@ -503,6 +507,9 @@ def oracle(ctx: vlib.Ctx, n_cases: int, n_values: int):
         depth = r.choice([1, 2, 2, 3, 3, 4])
         tbl, root = G.gen_case(r, depth, probe)
         src = G.module_src(tbl, root)
+        if len(src) > 12000:        # stated size bound of the search (keeps memory and time predictable)
+            ctx.hist("skipped", "program-too-large")
+            continue
         vspecs = [G.gen_value(r, root, tbl, probe) for _ in range(n_values)]
         k = run_case(ctx, tbl, root, vspecs, src, probe)
         total += k
@@ -675,7 +682,7 @@ def model_part(ctx: vlib.Ctx):
                                               "C06_sound_full_refuted", "C06_flag_refuted", "C06_intkey_refuted", "C06_shared_defs_refuted",
                                               "C06_set_collision_refuted", "C06_init_false_refuted"], kernels=["K6"])
     r = ctx.rng
-    want = ctx.budget(150, 1500)
+    want = ctx.budget(150, 1000)
     a_cases, b_cases, c_cases, a_descr, b_descr, c_descr = [], [], [], [], [], []
     patterns = set()
     tries = 0
@@ -687,6 +694,9 @@ def model_part(ctx: vlib.Ctx):
             ctx.hist("model_skipped", "generic-dataclass")
             continue
         src = G.module_src(tbl, root)
+        if len(src) > 12000:
+            ctx.hist("model_skipped", "program-too-large")
+            continue
         try:
             m = load_module(src)
         except Exception as e:
@@ -741,7 +751,15 @@ def model_part(ctx: vlib.Ctx):
                     ctx.hist("model_skipped", "serialize:" + type(e).__name__)
                     continue
                 real_valid = all(not list(val.iter_errors(doc)) for val in vals.values())
-                if usafe:
+                st = Sites(tbl, m, False, doc)
+                try:
+                    st.walk(root, v, ())
+                except Exception:
+                    pass
+                collide = any(kd == "set-collision" for _, kd in st.out)
+                if collide:       # excluded by the conformance predicate (enc_ok demands distinct element encodings)
+                    ctx.hist("model_skipped", "enc_ok:set-wire-collision")
+                if usafe and not collide:
                     c_cases.append(f"({env_t}, {ty_t}, {vt}, {dt}, {M.cbool(real_valid)})")
                     c_descr.append(G.ty_src(root, tbl, [])[:120] + " | " + G.val_src(vs)[:120])
                 combo = r.choice(COMBOS)
@@ -863,7 +881,7 @@ def run(ctx: vlib.Ctx):
     k6_part(ctx)
     model_part(ctx)
     fixed_part(ctx)
-    n = oracle(ctx, ctx.budget(250, 2500), 4)
+    n = oracle(ctx, ctx.budget(250, 2000), 4)
     ctx.notes.append(f"oracle validations: {n}")
 
 
